@@ -729,7 +729,11 @@ func compareByLocalOrigin(path1, path2 *Path) *Path {
 	}
 
 	// Here we consider prefix from NC as locally originating static route.
-	// Hence it is preferred.
+	// Hence it is preferred. Two locally originating routes from different
+	// sources are equally preferred here; the following steps decide.
+	if path1.IsLocal() && path2.IsLocal() {
+		return nil
+	}
 	if path1.IsLocal() {
 		return path1
 	}
